@@ -388,7 +388,30 @@ func (x *Exec) elemRef(elemT types.Type, arr, idx *Term) *Term {
 // addRefAxioms: origin/parent axioms making the constructor injective, non-nil and distinct
 // from other constructors and from plainly allocated objects (origin 0).
 func (x *Exec) addRefAxioms(name string, r *Term, args []*Term) {
-	if x.refAx[r.ID] || r.hasBnd {
+	if r.hasBnd {
+		// applied to a bound variable (inside a quantifier over objects): state the constructor's
+		// axioms once, universally (one-argument constructors: embedded struct fields)
+		if len(args) == 1 && !x.refAxQ[name] {
+			if x.refAxQ == nil {
+				x.refAxQ = map[string]bool{}
+			}
+			x.refAxQ[name] = true
+			id, ok := x.originID[name]
+			if !ok {
+				id = len(x.originID) + 1
+				x.originID[name] = id
+			}
+			bv64 := x.tb.BV(64)
+			v := x.tb.BoundVar("o", bv64)
+			ap := x.tb.UF(name, bv64, v)
+			x.facts = append(x.facts, x.tb.Forall([]*Term{v}, x.tb.And(
+				x.tb.Eq(x.tb.UF("origin", bv64, ap), x.tb.BVInt(int64(id), 64)),
+				x.nonNil(ap),
+				x.tb.Eq(x.tb.UF("parent0", bv64, ap), v))))
+		}
+		return
+	}
+	if x.refAx[r.ID] {
 		return
 	}
 	x.refAx[r.ID] = true
